@@ -4,22 +4,23 @@ json: {"C01:SEED": [[caught_by...], needs, detection_history], ...}"""
 import json, os, shutil, subprocess, sys
 info = json.load(open(sys.argv[1]))
 for key, (caught, needs, hist) in info.items():
-    pid, seed = key.split(":")
+    wt, seed = key.split(":")
+    pid = wt.rstrip("b")
     n = 1
     while os.path.exists("/verif/seeded/%s-%d" % (pid, n)):
         n += 1
     d = "/verif/seeded/%s-%d" % (pid, n)
-    src = "/tmp/mut-%s/%s" % (pid, seed)
+    src = "/tmp/mut-%s/%s" % (wt, seed)
     os.makedirs(d + "/demo")
     for f in os.listdir(src):
         p = os.path.join(src, f)
         if os.path.isdir(p) or os.path.getsize(p) > 300000 or f.endswith(".bin"):
             continue
         shutil.copy(p, d if f in ("patch.diff", "README.md", "build_and_run.sh") else d + "/demo")
-    log = [l.strip() for l in open("/tmp/mut-%s/verify.log" % pid) if l.startswith(seed + " ")]
-    base = subprocess.run(["git", "-C", "/tmp/mut-" + pid, "rev-parse", "--short", "HEAD"], capture_output=True, text=True).stdout.strip()
+    log = [l.strip() for l in open("/tmp/mut-%s/verify.log" % wt) if l.startswith(seed + " ")]
+    base = subprocess.run(["git", "-C", "/tmp/mut-" + wt, "rev-parse", "--short", "HEAD"], capture_output=True, text=True).stdout.strip()
     json.dump({"breaks": pid, "property": pid, "caught_by": caught, "needs": needs, "detection_history": hist,
-               "origin": "independent sub-agent given only the property text and a scratch worktree (/tmp/mut-%s)" % pid, "base_commit": base,
+               "origin": "independent sub-agent given only the property text and a scratch worktree (/tmp/mut-%s)" % wt, "base_commit": base,
                "confirmed": log, "ran": "tools/verify_seed.sh %s (library built with the change, repo suite under unshare -rn, demonstration with / without the change); tools/try_seed.sh <patch> <checks> (git -C /repo apply; bin/check; git -C /repo checkout -- .)" % pid},
               open(d + "/meta.json", "w"), indent=1)
     print(d, log)
